@@ -321,6 +321,25 @@ def run(ck):
               "every non-null pick is performed, queued for performing, or released" if not lost else
               "the connection claimed at line %s goes out of scope (line %s) on a path that neither uses nor releases it" % (d_.get("l"), lost[0].get("l")))
 
+    # ---------------- R9: check-then-enqueue is followed by a re-check ----------------
+    ck.rule("C15-R9", "C must-pass-through (lost wake-up)",
+            "in Client::doRequest, on the arm where no connection could be claimed, the enqueue of the request is followed on every path by "
+            "processRequestQueue(): the completion that frees a connection may run between the failed pick and the enqueue and then finds "
+            "the queue still empty", 1)
+    dr = lib.single(prog, CLIENT + "doRequest")
+    nulltests = [b for b in dr.blocks.values() if b.term and b.term.get("k") == "if" and b.term.get("cmp") == "==" and (b.term.get("rconst") == "nullptr" or "nullptr" in ((b.term.get("rhs") or {}).get("t") or ""))
+                 and (b.term.get("lhs") or {}).get("v") in {d_["var"] for d_ in dr.events("decl") if strip_tmpl(d_.get("icall") or "") == POOL + "pickConnection"}]
+    ck.require(nulltests, "`conn == nullptr` test not found in Client::doRequest")
+    enq = [e for lf in prog.lambdas_in(dr) for e in lf.calls(lambda e: e.base_callee() == "Pistache::MPMCQueue::enqueue")]
+    ck.require(enq, "enqueue of the waiting request not found in Client::doRequest")
+    for b in nulltests:
+        arm = b.succs[0]
+        bad = [x for x in cfg.exits_without(dr, lambda e: e["k"] == "call" and (e.get("callee") or "") == CLIENT + "processRequestQueue", start_block=arm) if x.kind != "throw"]
+        ck.ob("C15-R9", "doRequest/recheck-after-enqueue", not bad, "%s:%s" % (dr.file, b.term.get("l")), dr,
+              "processRequestQueue() follows the enqueue on every path" if not bad else
+              "the request is queued and doRequest returns without looking at the pool again: if the last busy connection finished in between, "
+              "nothing ever starts the queued request")
+
     # ---------------- R8: a fired time-out is unregistered before its callback ----------------
     ck.rule("C15-R8", "C ordering",
             "Transport::handleReadableEntry erases the expired timer's entry from `timeouts` before it calls Connection::handleTimeout: the "
